@@ -93,8 +93,11 @@ pub fn main(args: &[String]) {
                 if kind == "manyfiles" && *mib != sizes[0] {
                     continue;
                 }
-                if kind == "smallpieces" && *mib != sizes[0] && mib != sizes.last().unwrap() {
-                    continue;       // the smallest and the largest size are enough to see growth
+                // (the smallest size and the largest one up to 128 MiB are enough to see growth: the repair loop prepares its
+                // 8 MiB buffer for every content block, a gigabyte of 1 000-byte blocks would take it most of an hour)
+                let sp_big = sizes.iter().copied().filter(|m| *m <= 128).max().unwrap_or(sizes[0]);
+                if kind == "smallpieces" && *mib != sizes[0] && *mib != sp_big {
+                    continue;
                 }
                 let total = mib << 20;
                 // ---- write: generator -> counting sink
